@@ -79,7 +79,14 @@ def key_of(ob, call, rep):
 
 def main():
     if '--replay' in sys.argv:
-        sys.exit(replay_file(sys.argv[sys.argv.index('--replay') + 1]))
+        path = sys.argv[sys.argv.index('--replay') + 1]
+        with open(path) as f:
+            rp = json.load(f)['replay']
+        if 'real' in rp:      # a scenario that failed on the real directory: re-enact it there
+            real = confirm(Ob('replay', rp['harness'], rp['func'], env=rp.get('env')), rp['call'], {})
+            print(json.dumps(real))
+            sys.exit(1 if real.get('ok') is False else 0)
+        sys.exit(replay_file(path))
     run = Run('C16', 'model_checking')
     thorough = run.tier == 'thorough'
     T = 1200 if thorough else 400
@@ -138,6 +145,15 @@ def main():
         if mrep.get('ok') is True and real.get('ok') is True:
             nconform += 1
             run.add(ob.name, 'witness-ok', 0, dict(model=mrep, real=real))
+        elif real.get('ok') is False:
+            # the scenario, executed with the real models / writers / key function on a real directory, breaks the
+            # property: that is a violation of the real code on this concrete scenario (whatever the model says -
+            # the token-level key / writer models cannot see a defect inside the real ModelHash or writers)
+            v = run.report_violation(ob.name, f'{ob.func} {call} [real directory]',
+                                     dict(kind='crosshair', harness=ob.file, func=ob.func, call=call, env=ob.env,
+                                          concrete=mrep, real=real),
+                                     f'{call} on a real directory: {real}')
+            run.add(ob.name, v, 0, dict(model=mrep, real=real))
         else:
             run.add(ob.name, 'error', 0, dict(model=mrep, real=real))
             run.harness_error(f'file-system model and real directory disagree on {call}: model={mrep} real={real}')
